@@ -159,7 +159,7 @@ func runFunctions(w *World, specs *Specs, contracts map[string]*Contract, keys [
 		} else if strings.HasPrefix(key, "lockset:") {
 			locksetOutcome(w, fo)
 		} else if strings.HasPrefix(key, "bounded:") {
-			boundedOutcome(w, fo)
+			boundedOutcome(w, fo, kfs)
 		} else if strings.HasPrefix(key, "maprange:") {
 			maprangeOutcome(w, fo)
 		} else if strings.HasPrefix(key, "globals:") {
@@ -431,6 +431,15 @@ func cmdCheck(args []string) int {
 		claimed[e.Func][e.Obl] = true
 	}
 	sort.Strings(keys)
+	if only := os.Getenv("GVC_ONLY"); only != "" { // development aid: restrict the run to keys containing this text (the evidence then covers those only)
+		var ks []string
+		for _, k := range keys {
+			if strings.Contains(k, only) {
+				ks = append(ks, k)
+			}
+		}
+		keys = ks
+	}
 	if len(keys) == 0 {
 		fmt.Fprintf(os.Stderr, "gvc: no obligations claimed for %s\n", *prop)
 		return 2
@@ -818,7 +827,9 @@ func footprintOutcome(w *World, fo *funcOutcome) {
 		fo.Res[i] = OblResult{Status: st, Solver: "ssa-scan"}
 	}
 	add("written", writers, fs.Writers)
-	add("read", readers, fs.Readers)
+	if len(fs.Readers) != 1 || fs.Readers[0] != "*" { // "*": anybody may read
+		add("read", readers, fs.Readers)
+	}
 	fo.VC.Trusted = []string{"footprint of " + fs.Field + ": syntactic scan of go/ssa FieldAddr instructions in every function of the module (reflection/unsafe not considered)"}
 }
 
@@ -1111,7 +1122,7 @@ type boundedSpec struct {
 // boundedOutcome runs a bounded stand-in: a harness (kept under /verif/spec/bounded) is injected into the package with
 // go test -overlay and exercises the REAL function on a stated, systematically enumerated set of inputs against an
 // exact oracle. It is labelled bounded everywhere and never counted as proved.
-func boundedOutcome(w *World, fo *funcOutcome) {
+func boundedOutcome(w *World, fo *funcOutcome, kfs []knownFinding) {
 	name := strings.TrimPrefix(fo.Key, "bounded:")
 	fo.VC = &VCResult{Key: fo.Key}
 	dirSpec := filepath.Join(verifDir(), "spec", "bounded")
@@ -1151,6 +1162,18 @@ func boundedOutcome(w *World, fo *funcOutcome) {
 	cmd := exec.Command("go", "test", "-overlay", ovFile, "-vet=off", "-v", "-count=1", "-timeout", "300s", "-run", "^"+bs.Test+"$", "./"+bs.Package)
 	cmd.Dir = w.RepoDir
 	cmd.Env = goEnv()
+	// recorded findings of this stand-in: the harness leaves out exactly the inputs a known_findings.txt line names
+	// (it reads them from the environment, so removing the line brings the failure back)
+	var regions []string
+	if all, err := readKnownFindings(verifDir() + "/known_findings.txt"); err == nil {
+		kfs = all // the stand-in may serve several properties; the finding is listed under one of them
+	}
+	for _, kf := range kfs {
+		if kf.Func == fo.Key {
+			regions = append(regions, kf.Region)
+		}
+	}
+	cmd.Env = append(cmd.Env, "GVC_KNOWN_REGIONS="+strings.Join(regions, "\n"))
 	t0 := time.Now()
 	out, _ := cmd.CombinedOutput()
 	secs := time.Since(t0).Seconds()
@@ -1181,15 +1204,19 @@ func boundedOutcome(w *World, fo *funcOutcome) {
 }
 
 type locksetSpec struct {
-	Mutex   string   `json:"mutex"`   // "<relpkg>.<var>"
-	Guards  []string `json:"guards"`  // package-level variables the mutex protects
-	Startup []string `json:"startup"` // functions documented as start-up / single-threaded API (exempt)
-	Why     string   `json:"why"`
+	Mutex      string   `json:"mutex"`       // "<relpkg>.<var>"
+	Guards     []string `json:"guards"`      // package-level variables the mutex protects
+	HeldOnCall []string `json:"held_on_call"` // functions documented as "the caller holds the mutex"
+	Why        string   `json:"why"`
 }
 
-// locksetOutcome: lock discipline by a syntactic scan. Every function that touches a guarded variable, directly or
-// through the functions it calls, takes the mutex; if it (transitively) writes one, it takes it EXCLUSIVELY
-// (Lock, not RLock). Functions on the start-up list are exempt (their callers are not: calling one counts as writing).
+// locksetOutcome: lock discipline by a flow-sensitive go/ssa dataflow, one function at a time. The state at a program
+// point is whether the mutex is held (no / yes / on some paths only) and whether an Unlock has been deferred.
+//   - every load or store of a guarded variable happens at a point where the mutex is held on every path;
+//   - the mutex is never taken where it may already be held, neither directly nor through a (transitive) callee;
+//   - no call through a function value or an interface is made while it may be held (the callee could lock again);
+//   - every return leaves the mutex released (or, for a held_on_call function, held as on entry);
+//   - a held_on_call function is only ever called with the mutex held.
 func locksetOutcome(w *World, fo *funcOutcome) {
 	name := strings.TrimPrefix(fo.Key, "lockset:")
 	fo.VC = &VCResult{Key: fo.Key}
@@ -1218,85 +1245,221 @@ func locksetOutcome(w *World, fo *funcOutcome) {
 			guards[g] = true
 		}
 	}
-	startup := map[string]bool{}
-	for _, f := range ls.Startup {
-		startup[f] = true
+	heldOnCall := map[string]bool{}
+	for _, f := range ls.HeldOnCall {
+		heldOnCall[f] = true
 	}
-	type info struct {
-		reads, writes, lock, rlock bool
-		calls                      []*ssa.Function
+	muOp := func(ins ssa.Instruction) string { // "Lock", "Unlock", "defer Unlock" or ""
+		ci, ok := ins.(ssa.CallInstruction)
+		if !ok {
+			return ""
+		}
+		cc := ci.Common()
+		callee, ok := cc.Value.(*ssa.Function)
+		if !ok || callee.Pkg == nil || callee.Pkg.Pkg.Path() != "sync" || len(cc.Args) == 0 || cc.Args[0] != ssa.Value(mu) {
+			return ""
+		}
+		if _, isDefer := ins.(*ssa.Defer); isDefer {
+			return "defer " + callee.Name()
+		}
+		return callee.Name()
 	}
-	infos := map[*ssa.Function]*info{}
-	var scan func(fn *ssa.Function, in *info)
-	scan = func(fn *ssa.Function, in *info) {
+	// which functions take the mutex themselves or through static callees
+	var all []*ssa.Function
+	var collect func(fn *ssa.Function)
+	collect = func(fn *ssa.Function) {
+		all = append(all, fn)
+		for _, a := range fn.AnonFuncs {
+			collect(a)
+		}
+	}
+	var names []string
+	for k := range w.Funcs {
+		names = append(names, k)
+	}
+	sort.Strings(names)
+	for _, k := range names {
+		if fn := w.Funcs[k]; fn.Parent() == nil {
+			collect(fn)
+		}
+	}
+	locksDirect := map[*ssa.Function]bool{}
+	callees := map[*ssa.Function][]*ssa.Function{}
+	for _, fn := range all {
 		for _, blk := range fn.Blocks {
 			for _, ins := range blk.Instrs {
-				for _, op := range ins.Operands(nil) {
-					if g, ok := (*op).(*ssa.Global); ok && guards[g] {
-						if st, isStore := ins.(*ssa.Store); isStore && st.Addr == g {
-							in.writes = true
-						} else {
-							in.reads = true
-						}
-					}
-				}
-				// a map update / delete through a loaded guarded map is a write
-				if mu2, ok := ins.(*ssa.MapUpdate); ok {
-					if ld, ok := mu2.Map.(*ssa.UnOp); ok {
-						if g, ok := ld.X.(*ssa.Global); ok && guards[g] {
-							in.writes = true
-						}
-					}
+				if op := muOp(ins); op == "Lock" || op == "RLock" {
+					locksDirect[fn] = true
 				}
 				if ci, ok := ins.(ssa.CallInstruction); ok {
-					cc := ci.Common()
-					if callee, ok := cc.Value.(*ssa.Function); ok {
-						if callee.Pkg != nil && callee.Pkg.Pkg.Path() == "sync" && len(cc.Args) > 0 && cc.Args[0] == ssa.Value(mu) {
-							switch callee.Name() {
-							case "Lock":
-								in.lock = true
-							case "RLock":
-								in.rlock = true
-							}
-						} else {
-							in.calls = append(in.calls, callee)
+					if callee, ok := ci.Common().Value.(*ssa.Function); ok {
+						callees[fn] = append(callees[fn], callee)
+					}
+					if mc, ok := ci.Common().Value.(*ssa.MakeClosure); ok {
+						if callee, ok := mc.Fn.(*ssa.Function); ok {
+							callees[fn] = append(callees[fn], callee)
 						}
 					}
 				}
 			}
 		}
-		for _, a := range fn.AnonFuncs {
-			scan(a, in)
+	}
+	locksMemo := map[*ssa.Function]int{}
+	var locks func(fn *ssa.Function) bool
+	locks = func(fn *ssa.Function) bool {
+		if v, ok := locksMemo[fn]; ok {
+			return v == 1
+		}
+		locksMemo[fn] = 0
+		r := locksDirect[fn]
+		for _, c := range callees[fn] {
+			if !r && locks(c) {
+				r = true
+			}
+		}
+		if r {
+			locksMemo[fn] = 1
+		}
+		return r
+	}
+	const (
+		hNo, hYes, hMaybe = 0, 1, 2
+	)
+	type st struct {
+		held     int
+		deferred bool
+		seen     bool
+	}
+	join := func(a, b st) st {
+		if !a.seen {
+			return b
+		}
+		if !b.seen {
+			return a
+		}
+		r := st{seen: true, held: a.held, deferred: a.deferred || b.deferred}
+		if a.held != b.held {
+			r.held = hMaybe
+		}
+		return r
+	}
+	var offenders []string
+	seenOff := map[string]bool{}
+	report := func(fn *ssa.Function, ins ssa.Instruction, what string) {
+		pos := ""
+		if ins != nil && ins.Pos().IsValid() {
+			p := w.Fset.Position(ins.Pos())
+			pos = fmt.Sprintf(" (%s:%d)", filepath.Base(p.Filename), p.Line)
+		}
+		m := funcKey(fn) + " " + what + pos
+		if !seenOff[m] {
+			seenOff[m] = true
+			offenders = append(offenders, m)
 		}
 	}
-	for _, fn := range w.Funcs {
-		if fn.Parent() == nil {
-			in := &info{}
-			infos[fn] = in
-			scan(fn, in)
+	heldName := map[int]string{hNo: "not held", hYes: "held", hMaybe: "held on some paths only"}
+	touched := 0
+	for _, fn := range all {
+		if len(fn.Blocks) == 0 || fn.Name() == "init" || strings.HasPrefix(fn.Name(), "init#") {
+			continue
 		}
-	}
-	// transitive closure: does fn (or something it calls) read / write a guarded variable?
-	type rw struct{ r, w bool }
-	memo := map[*ssa.Function]*rw{}
-	var reach func(fn *ssa.Function, depth int) rw
-	reach = func(fn *ssa.Function, depth int) rw {
-		if m, ok := memo[fn]; ok {
-			return *m
+		entry := st{seen: true, held: hNo}
+		if heldOnCall[funcKey(fn)] {
+			entry.held = hYes
 		}
-		m := &rw{}
-		memo[fn] = m
-		in := infos[fn]
-		if in == nil || depth > 12 {
-			return *m
+		in := make([]st, len(fn.Blocks))
+		in[0] = entry
+		touches := false
+		// fixpoint; findings are reported in a last pass over the stable states
+		for pass := 0; pass < 2; pass++ {
+			changed := true
+			for iter := 0; changed && iter < 64; iter++ {
+				changed = false
+				for _, blk := range fn.Blocks {
+					cur := in[blk.Index]
+					if !cur.seen {
+						continue
+					}
+					for _, ins := range blk.Instrs {
+						final := pass == 1
+						// guarded access
+						for _, op := range ins.Operands(nil) {
+							if g, ok := (*op).(*ssa.Global); ok && guards[g] {
+								touches = true
+								if final && cur.held != hYes {
+									report(fn, ins, fmt.Sprintf("touches %s where %s is %s", g.Name(), ls.Mutex, heldName[cur.held]))
+								}
+							}
+						}
+						switch op := muOp(ins); op {
+						case "Lock", "RLock":
+							if final && cur.held != hNo {
+								report(fn, ins, fmt.Sprintf("takes %s where it is already %s", ls.Mutex, heldName[cur.held]))
+							}
+							if final && op == "RLock" {
+								report(fn, ins, "takes only the shared lock")
+							}
+							cur.held = hYes
+						case "Unlock", "RUnlock":
+							if final && cur.held != hYes {
+								report(fn, ins, fmt.Sprintf("releases %s where it is %s", ls.Mutex, heldName[cur.held]))
+							}
+							cur.held = hNo
+						case "defer Unlock", "defer RUnlock":
+							cur.deferred = true
+						case "":
+							if _, ok := ins.(*ssa.RunDefers); ok && cur.deferred {
+								cur.held = hNo
+							}
+							if ci, ok := ins.(ssa.CallInstruction); ok {
+								cc := ci.Common()
+								_, isGo := ins.(*ssa.Go)
+								_, isDefer := ins.(*ssa.Defer)
+								callee, static := cc.Value.(*ssa.Function)
+								if mc, ok := cc.Value.(*ssa.MakeClosure); ok {
+									callee, static = mc.Fn.(*ssa.Function)
+								}
+								switch {
+								case isGo || isDefer:
+								case static && heldOnCall[funcKey(callee)]:
+									touches = true
+									if final && cur.held != hYes {
+										report(fn, ins, fmt.Sprintf("calls %s (documented: caller holds %s) where it is %s", funcKey(callee), ls.Mutex, heldName[cur.held]))
+									}
+								case static:
+									if final && cur.held != hNo && locks(callee) {
+										report(fn, ins, fmt.Sprintf("calls %s, which takes %s, where it is already %s", funcKey(callee), ls.Mutex, heldName[cur.held]))
+									}
+								default:
+									if _, isBuiltin := cc.Value.(*ssa.Builtin); !isBuiltin && final && cur.held != hNo {
+										report(fn, ins, fmt.Sprintf("calls through a function value or interface where %s is %s (the callee may take it again)", ls.Mutex, heldName[cur.held]))
+									}
+								}
+							}
+							if _, ok := ins.(*ssa.Return); ok && final {
+								want := hNo
+								if heldOnCall[funcKey(fn)] {
+									want = hYes
+								}
+								if cur.held != want {
+									report(fn, ins, fmt.Sprintf("returns with %s %s", ls.Mutex, heldName[cur.held]))
+								}
+							}
+						}
+					}
+					for _, succ := range blk.Succs {
+						j := join(in[succ.Index], cur)
+						if j != in[succ.Index] {
+							in[succ.Index] = j
+							changed = true
+						}
+					}
+				}
+			}
 		}
-		m.r, m.w = in.reads, in.writes
-		for _, c := range in.calls {
-			x := reach(c, depth+1)
-			m.r = m.r || x.r
-			m.w = m.w || x.w
+		if touches {
+			touched++
 		}
-		return *m
 	}
 	fo.Res = map[int]OblResult{}
 	addObl := func(name, descr string, ok bool) {
@@ -1306,43 +1469,10 @@ func locksetOutcome(w *World, fo *funcOutcome) {
 		if !ok {
 			st = "sat"
 		}
-		fo.Res[i] = OblResult{Status: st, Solver: "ssa-scan"}
-	}
-	var offenders []string
-	touched := 0
-	for fn, in := range infos {
-		key := funcKey(fn)
-		if startup[key] || (fn.Name() == "init" || strings.HasPrefix(fn.Name(), "init#")) {
-			continue
-		}
-		x := reach(fn, 0)
-		if !x.r && !x.w {
-			continue
-		}
-		// only functions that touch the variables themselves or call a start-up function directly have to hold the lock
-		direct := in.reads || in.writes
-		for _, c := range in.calls {
-			if startup[funcKey(c)] {
-				direct = true
-			}
-		}
-		if !direct {
-			continue
-		}
-		touched++
-		switch {
-		case x.w && !in.lock:
-			how := "takes no lock"
-			if in.rlock {
-				how = "takes only the shared lock (RLock)"
-			}
-			offenders = append(offenders, fmt.Sprintf("%s may write a guarded variable but %s", key, how))
-		case !x.w && !in.lock && !in.rlock:
-			offenders = append(offenders, fmt.Sprintf("%s reads a guarded variable without the lock", key))
-		}
+		fo.Res[i] = OblResult{Status: st, Solver: "ssa-dataflow"}
 	}
 	sort.Strings(offenders)
-	addObl("lock-discipline", fmt.Sprintf("every function outside %v that touches %v holds %s, exclusively if it may write: %v (%s)", ls.Startup, ls.Guards, ls.Mutex, offenders, ls.Why), len(offenders) == 0 && mu != nil && len(guards) == len(ls.Guards))
+	addObl("lock-discipline", fmt.Sprintf("%v are touched only where %s is held on every path; it is never taken where it may be held, no call through a function value is made while it may be held, every return releases it; %v are entered and left with it held: offenders %v (%s)", ls.Guards, ls.Mutex, ls.HeldOnCall, offenders, ls.Why), len(offenders) == 0 && mu != nil && len(guards) == len(ls.Guards))
 	addObl("scan-not-empty", fmt.Sprintf("%d functions touch the guarded variables", touched), touched > 0)
-	fo.VC.Trusted = []string{"lock discipline of " + ls.Mutex + ": syntactic go/ssa scan (a Lock call anywhere in the function counts as holding the lock for the whole function; calls through function values and interfaces are not followed); start-up functions " + fmt.Sprint(ls.Startup) + " are exempt"}
+	fo.VC.Trusted = []string{"lock discipline of " + ls.Mutex + ": flow-sensitive go/ssa dataflow per function (held / not held / held on some paths, deferred Unlock); package initialisers are exempt; a panic between Lock and a non-deferred Unlock is not modelled; values reached through the guarded maps (the *Symbol entries) are covered by footprint:symbol_immutable, not by this scan"}
 }
